@@ -9,15 +9,18 @@
 
     Model: Comb/CombModel.v (literal model of sweetpea/_internal/combinatorics.py,
     compared with the real code on every run).  Reference notions:
-    Comb/CombSpec.v.  The last two groups concern the explicit-stack / memo
+    Comb/CombSpec.v.  The last groups concern the explicit-stack / memo
     implementation [k_prefixes_of_permutations_with_copies]: the bijection is
     proved for the clean recursion [cnt] / [prefix_unrank], and the stack
-    machine and the memoised recursive counter are proved to compute exactly
-    those (for every valid memo table, relative to fuel: whenever they return
-    at all; fuel exhaustion is an error value the correspondence never sees). *)
+    machine, the memoised recursive counter, the two dispatchers the sampler
+    calls and any session of calls on one shared memo table are proved to
+    compute exactly those (for every valid memo table, relative to fuel:
+    whenever they return [Ok]; fuel exhaustion is an error value that the
+    correspondence run never observes). *)
 From Coq Require Import ZArith List Bool Lia.
 From SP Require Import Comb.CombModel Comb.CombSpec Comb.BinomFacts Comb.RadixProofs
-  Comb.CnsProofs Comb.PermProofs Comb.MultiProofs Comb.PrefixProofs.
+  Comb.CnsProofs Comb.PermProofs Comb.MultiProofs Comb.PrefixProofs Comb.CountProofs
+  Comb.DispatchProofs Comb.StackProofs Comb.SessionProofs.
 Import ListNotations.
 Open Scope Z_scope.
 
@@ -126,3 +129,79 @@ Example C13_prefix_copies_example :
   cnt [2; 2; 2] 4 = 54 /\ prefix_unrank [2; 2; 2] 4 7 = Some [0; 2; 1; 2] /\
   prefix_rank [2; 2; 2] [0; 2; 1; 2] = 7.
 Proof. repeat split. Qed.
+
+(** ** the public wrappers of the multiset unranker and the closed-form count *)
+Theorem C13_cpwvc_is_multiperm : forall idx cs,
+  construct_permutation_with_varying_copies idx (Z.of_nat (length cs)) cs =
+  construct_with_copies idx (Z.of_nat (length cs)) (zsum cs) cs.
+Proof. exact CountProofs.cpwvc_eq. Qed.
+Print Assumptions C13_cpwvc_is_multiperm.
+Theorem C13_cpwc_is_multiperm : forall idx (q : nat) m,
+  construct_permutation_with_copies idx (Z.of_nat q) m =
+  construct_with_copies idx (Z.of_nat (length (repeat m q))) (zsum (repeat m q)) (repeat m q).
+Proof. exact CountProofs.cpwc_eq. Qed.
+Print Assumptions C13_cpwc_is_multiperm.
+Theorem C13_count_copies_full : forall (q : nat) m, 0 <= m ->
+  count_permutations_with_copies (Z.of_nat q) m (Z.of_nat q * m) =
+  Ok (KCount (multinomial (repeat m q))).
+Proof. exact CountProofs.count_pwc_full. Qed.
+Print Assumptions C13_count_copies_full.
+
+(** ** the explicit-stack / memo machine and the memoised recursion compute
+    the clean recursion (any valid memo table in, a valid one out) *)
+Theorem C13_stack_count_refines : forall q mc first_n memo v memo',
+  params_ok q mc -> 0 <= first_n -> memo_valid q mc memo ->
+  k_prefixes_of_permutations_with_copies q mc first_n (-1) memo = Ok (v, memo') ->
+  v = KCount (cnt (cs_of q mc) first_n) /\ memo_valid q mc memo'.
+Proof. exact StackProofs.k_prefixes_count_refines. Qed.
+Print Assumptions C13_stack_count_refines.
+Theorem C13_stack_unrank_refines : forall q mc first_n memo j v memo',
+  params_ok q mc -> 0 <= first_n -> memo_valid q mc memo ->
+  0 <= j < cnt (cs_of q mc) first_n ->
+  k_prefixes_of_permutations_with_copies q mc first_n j memo = Ok (v, memo') ->
+  (exists w, v = KPerm w /\ prefix_unrank (cs_of q mc) first_n j = Some w) /\ memo_valid q mc memo'.
+Proof. exact StackProofs.k_prefixes_unrank_refines. Qed.
+Print Assumptions C13_stack_unrank_refines.
+Theorem C13_recur_count_refines : forall q m first_n memo v memo',
+  0 <= q -> 0 <= m -> 0 <= first_n -> memo_valid q (Uniform m) memo ->
+  recur_count_prefixes_of_permutations_with_copies q m first_n memo = Ok (v, memo') ->
+  v = cnt (repeat m (Z.to_nat q)) first_n /\ memo_valid q (Uniform m) memo'.
+Proof. exact StackProofs.recur_count_prefixes_refines. Qed.
+Print Assumptions C13_recur_count_refines.
+Example C13_stack_example :
+  params_ok 3 (Counters [2; 1; 2]) /\ memo_valid 3 (Counters [2; 1; 2]) [] /\
+  k_prefixes_of_permutations_with_copies 3 (Uniform 2) 4 7 [] = Ok (KPerm [0; 2; 1; 2], [((1, 4), 6); ((2, 2), 1)]).
+Proof. split; [|split]; [apply StackProofs.params_ok_example | apply StackProofs.memo_valid_nil | vm_compute; reflexivity]. Qed.
+
+(** ** the uniform branch [first_n <= m]: base-q digits range over exactly the bounded words *)
+Theorem C13_uniform_small_words : forall (q : nat) (m first_n : Z) (w : list Z), first_n <= m ->
+  (bounded_word (repeat m q) first_n w <->
+   Z.of_nat (length w) = first_n /\ Forall (fun d => 0 <= d < Z.of_nat q) w).
+Proof. exact DispatchProofs.uniform_small_words. Qed.
+Print Assumptions C13_uniform_small_words.
+Theorem C13_cnt_uniform_small : forall (q : nat) (m need : Z), 0 <= need <= m ->
+  cnt (repeat m q) need = Z.of_nat q ^ need.
+Proof. exact SessionProofs.cnt_uniform_small. Qed.
+Print Assumptions C13_cnt_uniform_small.
+
+(** ** the two dispatchers called by the sampler, and sessions on one shared memo *)
+Theorem C13_count_dispatch_refines : forall q mc first_n memo v memo',
+  params_ok q mc -> 0 <= first_n -> memo_valid q mc memo ->
+  count_prefixes_of_permutations_with_copies q mc first_n memo = Ok (v, memo') ->
+  v = KCount (cnt (cs_of q mc) first_n) /\ memo_valid q mc memo'.
+Proof. exact SessionProofs.count_dispatch_refines. Qed.
+Print Assumptions C13_count_dispatch_refines.
+Theorem C13_unrank_dispatch_refines : forall q mc first_n memo j v memo',
+  params_ok q mc -> 0 <= first_n -> memo_valid q mc memo ->
+  0 <= j < cnt (cs_of q mc) first_n ->
+  compute_jth_prefix_of_permutations_with_copies q mc first_n j memo = Ok (v, memo') ->
+  (exists w, v = KPerm w /\ bounded_word (cs_of q mc) first_n w /\ dispatch_rank q mc first_n w = j) /\
+  memo_valid q mc memo'.
+Proof. exact SessionProofs.unrank_dispatch_refines. Qed.
+Print Assumptions C13_unrank_dispatch_refines.
+Theorem C13_session_refines : forall q mc ops memo, params_ok q mc ->
+  Forall (op_in_range q mc) ops -> memo_valid q mc memo ->
+  Forall2 (op_result_ok q mc) ops (fst (memo_session q mc ops memo)) /\
+  memo_valid q mc (snd (memo_session q mc ops memo)).
+Proof. exact SessionProofs.session_refines. Qed.
+Print Assumptions C13_session_refines.
